@@ -208,7 +208,10 @@ impl CostModel {
     /// additional details such as the units (kph, hours, etc), which can be
     /// summarized in the serialize_state_info method.
     pub fn serialize_cost(&self, state: &[StateVar]) -> Result<serde_json::Value, CostModelError> {
-        let mut state_variable_costs = self
+        // the (name, cost) pairs in feature order: total_cost is their sum in this fixed order
+        // (summed over HashMap::values() its last bit varied from run to run with three or
+        // more cost components)
+        let feature_costs = self
             .feature_indices
             .iter()
             .map(move |(name, idx)| {
@@ -233,11 +236,12 @@ impl CostModel {
                 let cost = rate.map_value(*state_var);
                 Ok((name.clone(), cost))
             })
-            .collect::<Result<HashMap<String, Cost>, CostModelError>>()?;
+            .collect::<Result<Vec<(String, Cost)>, CostModelError>>()?;
 
-        let total_cost = state_variable_costs
-            .values()
-            .fold(Cost::ZERO, |a, b| a + *b);
+        let total_cost = feature_costs
+            .iter()
+            .fold(Cost::ZERO, |a, (_, b)| a + *b);
+        let mut state_variable_costs: HashMap<String, Cost> = feature_costs.into_iter().collect();
         state_variable_costs.insert(String::from("total_cost"), total_cost);
 
         let result = json!(state_variable_costs);
